@@ -51,6 +51,9 @@ def gen_specs(tier, seed):
         for k in (kinds1 if tier == "thorough" else ["float", "int"]):
             specs.append(("none", [("f", fn), "(", L(k), ")"]))
         specs.append(("none", [L("float"), ("o", "*"), ("f", fn), "(", L("float"), ("o", "+"), L("int"), ")", ("o", "**"), L("int")]))
+        # arguments at the edge of a function's domain are reached through these two shapes (native boundary valuations below)
+        specs.append(("none", [("f", fn), "(", ("u", "-"), L("float"), ")"]))
+        specs.append(("none", [("f", fn), "(", L("int"), ("o", "-"), L("float"), ")"]))
     specs.append(("none", [("f", "sin"), "(", ("f", "cos"), "(", L("float"), ")", ")"]))
     specs.append(("none", [("u", "-"), ("f", "sqrt"), "(", L("int"), ")", ("o", "**"), L("int")]))
     # one operator: all kind pairs, unary on either side
@@ -275,6 +278,31 @@ def run_spec(arg):
             out["stats"] = E.stats
             return out
     out["stats"] = E.stats
+    ops = [it for it in spec[1] if isinstance(it, tuple)]
+    if out["result"] in ("holds", "inconclusive") and sum(1 for it in ops if it[0] == "f") == 1 and len(lv.vars) <= 2 and not info["idx"]:
+        # arguments at and next to the edges of the functions' domains (0, 1, -1 and their neighbours a few 1e-13 away, tiny and
+        # large magnitudes): where the result exists it must be the function's value there, not the value at the edge
+        # (validation runs on concrete doubles; the symbolic model has uninterpreted functions over the reals)
+        edge = [0.9999999999999, 1.0000000000001, 0.99999999999995, 1.00000000000005, 1e-13, 3e-13, 0.0, 1.0, 1e-300, 1e-8, 0.5, 2.0, 1e15]
+        nf = sum(1 for (_, k, _) in lv.vars if k == "float")
+        for b in edge:
+            for iv in ((0, 1, 2) if nf < len(lv.vars) else (0,)):
+                vals = [(b if k == "float" else iv) for (_, k, _) in lv.vars]
+                if nf == 0:
+                    vals = [int(b)] * len(lv.vars) if b in (0.0, 1.0, 2.0) else None
+                if vals is None:
+                    continue
+                r = concrete_check(spec, spaced, vals, w)
+                if r == "skip":
+                    continue
+                out["validated"] = out.get("validated", 0) + 1
+                if isinstance(r, dict):
+                    r["what"] = "native run at the edge of a function's domain differs from the reference: " + str(r.get("what") or "value")
+                    out["result"] = "violation"
+                    out["cex"] = r
+                    break
+            if out["result"] == "violation":
+                break
     if out["result"] == "holds":
         U.validate_native(E, paths, lv, lambda vals: concrete_check(spec, spaced, vals, w), out, nmax=1)
         if out["result"] == "holds":
